@@ -187,6 +187,56 @@ example :
     r1.2 = [(2, 0), (6, 0)] ∧ r2.2 = [] ∧ r3.2 = [(2, 1)] := by decide
 
 
+/-- a schedule of connectivity checks after the one at `t0`: strictly later each time, never more than
+`G` (= interval + jitter) apart -/
+def ticksOk (G : Nat) : Nat → List Nat → Prop
+  | _, [] => True
+  | t0, t :: ts => t0 < t ∧ t ≤ t0 + G ∧ ticksOk G t ts
+
+/-- in such a schedule that runs past `d`, the first check strictly after `d` comes no later than `d + G` -/
+theorem first_tick_after (G : Nat) (ts : List Nat) (t0 d : Nat) (h : ticksOk G t0 ts) (h0 : t0 ≤ d)
+    (hpast : ∃ t ∈ ts, d < t) :
+    ∃ pre t post, ts = pre ++ t :: post ∧ (∀ x ∈ pre, x ≤ d) ∧ d < t ∧ t ≤ d + G := by
+  induction ts generalizing t0 with
+  | nil => obtain ⟨t, ht, _⟩ := hpast; cases ht
+  | cons t ts ih =>
+    obtain ⟨h1, h2, h3⟩ := h
+    by_cases hd : d < t
+    · exact ⟨[], t, ts, rfl, by simp, hd, by omega⟩
+    · have hpast' : ∃ x ∈ ts, d < x := by
+        obtain ⟨x, hx, hdx⟩ := hpast
+        rcases List.mem_cons.mp hx with rfl | hx
+        · exact absurd hdx hd
+        · exact ⟨x, hx, hdx⟩
+      obtain ⟨pre, u, post, he, hp, hu1, hu2⟩ := ih t h3 (by omega) hpast'
+      refine ⟨t :: pre, u, post, by simp [he], ?_, hu1, hu2⟩
+      intro x hx
+      rcases List.mem_cons.mp hx with rfl | hx
+      · omega
+      · exact hp x hx
+
+/-- **Redial window.**  A High-affinity peer with an address, not this node, whose k-th consecutive
+failure was noticed at the check at `t0` (so its entry says "not before `d = t0 + min(max, k*step)`"):
+in any schedule of later checks at most `G` apart that runs past `d`, no check at or before `d` finds
+it eligible (spacing), and the FIRST check after `d` -- which comes no later than `d + G` -- does,
+provided it is then neither connected nor being dialled. -/
+theorem C13_redial_window (cfg : TickCfg) (G : Nat) (ts : List Nat) (t0 : Nat) (k : KnownPeer) (b : Backoff)
+    (h : ticksOk G t0 ts) (h0 : t0 ≤ b.until_) (hpast : ∃ t ∈ ts, b.until_ < t)
+    (hhigh : k.aff = .high) (hself : k.id ≠ cfg.own) (haddr : 0 < k.naddr) :
+    ∃ pre t post, ts = pre ++ t :: post ∧ t ≤ b.until_ + G ∧
+      (∀ x ∈ pre, ∀ connected st, lookupBackoff st.backoffs k.id = some b → eligible cfg x connected st k = false) ∧
+      (∀ connected st, lookupBackoff st.backoffs k.id = some b → k.id ∉ connected → k.id ∉ st.pending →
+        eligible cfg t connected st k = true) := by
+  obtain ⟨pre, t, post, he, hp, ht1, ht2⟩ := first_tick_after G ts t0 b.until_ h h0 hpast
+  refine ⟨pre, t, post, he, ht2, ?_, ?_⟩
+  · intro x hx connected st hb
+    exact C13_spacing cfg x connected st k b hb (hp x hx)
+  · intro connected st hb hc hpd
+    simp [eligible, hb, hhigh, hself, haddr, hc, hpd, ht1]
+
+example : ticksOk 6 10 [15, 21, 26] ∧ ∃ t ∈ [15, 21, 26], 20 < t := by
+  refine ⟨by simp [ticksOk], 21, by simp, by omega⟩
+
 /-- **The tick model is the translation of the source.** The eligibility predicate of the model is the
 conjunction of exactly the clauses the translator read off `handle_connectivity_check` (High affinity,
 not self, has an address, not connected, no pending background dial, strictly past its backoff); the dial
